@@ -445,7 +445,7 @@ class KeyPattern():
         :rtype: int or None
         """
         try:
-            return int(user_input) - 1
+            return int(user_input) - self._offset
         except ValueError:
             log.debug("No callback registered for user input %s", user_input)
             return None
